@@ -538,6 +538,13 @@ theorem C17_seq_counterexample_map_to_index_after_append :
     (WTs wAppendThenMapToIndex.ss (getOk (fromAST wAppendThenMapToIndex.ss)) = true) ∧
     isOk wAppendThenMapToIndex.run = true ∧ WTs wAppendThenMapToIndex.ss (getOk wAppendThenMapToIndex.run) = false := by decide
 
+/-- `struct_fields_as_arguments` takes `Assignments[0].Path` as the prefix for the first argument's
+    fields, whichever assignment that is: after a first application that produced a constant
+    assignment first, a second one builds paths through that constant's scalar target -/
+theorem C17_seq_counterexample_sf_args_prefix_of_first_assignment :
+    (WTs wSfArgsTwice.ss (getOk (fromAST wSfArgsTwice.ss)) = true) ∧
+    isOk wSfArgsTwice.run = true ∧ WTs wSfArgsTwice.ss (getOk wSfArgsTwice.run) = false := by decide +kernel
+
 /-! ## frame at the level of the whole rewriter -/
 
 /-- the property at full strength for the smallest case — no rule at all: nothing changes -/
